@@ -190,6 +190,9 @@ type EncCase struct {
 	// Palette: the suggested palette given to Reset before the colours are written (nil: none,
 	// a zero-value Encoder).
 	Palette *ops.Palette `json:"palette,omitempty"`
+	// NRegBetween: a number register is written after every colour (the colour/offset/colour/offset
+	// pattern of a gradient stop list).
+	NRegBetween bool `json:"nreg_between,omitempty"`
 }
 
 func checkEncodeIdentity(c EncCase) error {
@@ -201,6 +204,9 @@ func checkEncodeIdentity(c EncCase) error {
 	for i, cv := range c.Colors {
 		want[i] = cv.Color()
 		enc.SetCReg(0, false, want[i])
+		if c.NRegBetween {
+			enc.SetNReg(0, false, float32(i%7)/8)
+		}
 	}
 	b, err := enc.Bytes()
 	if err != nil {
@@ -218,10 +224,16 @@ func checkEncodeIdentity(c EncCase) error {
 	}
 	// the reference reads the same colours out of the bytes
 	p := spec.Parse(b)
-	if !p.OK || len(p.Ops) != len(want)+1 {
-		return harness.Violatef("c09/ill-formed", "encoder output ill formed: %s", p.Err)
+	var cregs []ops.Op
+	for _, o := range p.Ops {
+		if o.K == ops.SetCReg {
+			cregs = append(cregs, o)
+		}
 	}
-	for i, o := range p.Ops[1:] {
+	if !p.OK || len(cregs) != len(want) {
+		return harness.Violatef("c09/ill-formed", "encoder output ill formed or not %d colour writes: %s", len(want), p.Err)
+	}
+	for i, o := range cregs {
 		if o.C == nil || *o.C != c.Colors[i].Norm() {
 			return harness.Violatef("c09/register-colour", "colour %v is spelled as bytes the specification reads as %v", c.Colors[i], o.C)
 		}
@@ -332,9 +344,16 @@ func TestEncodeIdentityRandom(t *testing.T) {
 			if (cv.T == 1 || cv.T == 2) && rapid.IntRange(0, 3).Draw(t, "wide") == 0 {
 				cv.R |= uint8(rapid.IntRange(1, 3).Draw(t, "hi")) << 6 // PaletteIndexColor(70) is index 6
 			}
+			if i > 0 && rapid.IntRange(0, 3).Draw(t, "samecol") == 0 {
+				cv = c.Colors[i-1] // a stop colour repeated
+			}
 			c.Colors = append(c.Colors, cv)
 		}
 		var labels []string
+		if rapid.Bool().Draw(t, "nregbetween") {
+			c.NRegBetween = true
+			labels = append(labels, "number-register-written-after-every-colour")
+		}
 		if rapid.Bool().Draw(t, "pal") {
 			// a custom suggested palette, and direct colours that happen to equal its entries
 			p := gen.Palette(t, "pal", true)
